@@ -74,8 +74,11 @@ pub(crate) fn dispatch(a: &[String]) -> Option<String> {
         // complex_ops <n>: max errors of round trip, product (vs schoolbook negacyclic) and merge(split(.)) on fixed vectors
         "complex_ops" => {
             let n: usize = a[1].parse().unwrap();
-            let av: Vec<f64> = (0..n).map(|i| ((i * 37 + 11) % 101) as f64 - 50.0).collect();
-            let bv: Vec<f64> = (0..n).map(|i| ((i * 53 + 7) % 23) as f64 - 11.0).collect();
+            // optional: `rel <k>` = inputs scaled by 2^-k and errors reported relative to the operand norms (the property's bound is 2^-30 relative)
+            let relative = a.len() > 3 && a[2] == "rel";
+            let scale = if relative { (2.0f64).powi(-(a[3].parse::<i32>().unwrap())) } else { 1.0 };
+            let av: Vec<f64> = (0..n).map(|i| (((i * 37 + 11) % 101) as f64 - 50.0) * scale).collect();
+            let bv: Vec<f64> = (0..n).map(|i| (((i * 53 + 7) % 23) as f64 - 11.0) * scale).collect();
             let pa = Polynomial::new(av.iter().map(|x| Complex64::new(*x, 0.0)).collect::<Vec<_>>());
             let pb = Polynomial::new(bv.iter().map(|x| Complex64::new(*x, 0.0)).collect::<Vec<_>>());
             let fa = pa.fft();
@@ -92,6 +95,12 @@ pub(crate) fn dispatch(a: &[String]) -> Option<String> {
             let ev = Polynomial::new(av.iter().step_by(2).map(|x| Complex64::new(*x, 0.0)).collect::<Vec<_>>()).fft();
             let od = Polynomial::new(av.iter().skip(1).step_by(2).map(|x| Complex64::new(*x, 0.0)).collect::<Vec<_>>()).fft();
             let e_sp = s0.coefficients.iter().zip(ev.coefficients.iter()).chain(s1.coefficients.iter().zip(od.coefficients.iter())).map(|(c, x)| (c - x).norm()).fold(0.0, f64::max);
+            if relative {
+                let na = av.iter().map(|x| x * x).sum::<f64>().sqrt().max(f64::MIN_POSITIVE);
+                let nb = bv.iter().map(|x| x * x).sum::<f64>().sqrt().max(f64::MIN_POSITIVE);
+                let nf = fa.coefficients.iter().map(|c| c.norm_sqr()).sum::<f64>().sqrt().max(f64::MIN_POSITIVE);
+                return Some(format!("{:e},{:e},{:e},{:e}", e_rt / na, e_pr / (na * nb), e_sm / nf, e_sp / nf));
+            }
             Some(format!("{:e},{:e},{:e},{:e}", e_rt, e_pr, e_sm, e_sp))
         }
         "complex_table" => {
